@@ -5,6 +5,7 @@
 #include <glm/glm.hpp>
 #include <glm/gtc/packing.hpp>
 #include <immintrin.h>
+#include <cpuid.h>
 
 using namespace fp;
 
@@ -38,7 +39,8 @@ static void ref_split(double a, uint32_t* lo, int* cmp) {
 
 __attribute__((target("f16c"))) static uint16_t hw_f2h(float x) { return (uint16_t)_cvtss_sh(x, _MM_FROUND_TO_NEAREST_INT); }
 __attribute__((target("f16c"))) static float hw_h2f(uint16_t h) { return _cvtsh_ss(h); }
-static const bool HAVE_F16C = __builtin_cpu_supports("f16c");
+static bool cpu_has_f16c() { unsigned a, b, c, d; return __get_cpuid(1, &a, &b, &c, &d) && (c & (1u << 29)) && (c & (1u << 28)); }  // F16C and AVX
+static const bool HAVE_F16C = cpu_has_f16c();
 
 // ---------------------------------------------------------------------------------------------
 static void prop_h2f(pbt::Ctx& c) {
